@@ -29,6 +29,8 @@ LIB_SOURCES = [
     "fiber_scheduler_wsd.c", "fiber_event_native.c",
 ]
 PINNED_DEFS = ["-DFIBER_FAST_SWITCHING", "-DFIBER_STACK_SPLIT", "-DNDEBUG"]
+# per-file extra flags: the scheduler's deque call sites are wrapped into run-queue events
+FILE_DEFS = {"fiber_scheduler_wsd.c": ["-DVR_WSD_WRAP"]}
 INSTR = ["-O1", "-fno-inline", "-g", "-std=gnu11", "-w", "-fsanitize=thread", "-D" + GUARD]
 
 
@@ -134,15 +136,23 @@ def build_harness(name, runtime=False, extra_defs=(), extra_srcs=(), cc="gcc", l
         objs.append(ho)
         for s in extra_srcs:
             o = os.path.join(tmp, os.path.basename(s) + ".o")
-            jobs.append([cc] + INSTR + defs + split + inc + ["-c", os.path.join(VERIF, "harness", s), "-o", o])
+            fd = FILE_DEFS.get(os.path.basename(s)[len("wrap_"):], []) if os.path.basename(s).startswith("wrap_") else []
+            jobs.append([cc] + INSTR + defs + split + inc + fd + ["-c", os.path.join(VERIF, "harness", s), "-o", o])
             objs.append(o)
         if runtime:
             skip = set(os.environ.get("VR_SKIP_LIB", "").split(","))
+            # a unity wrapper harness/wrap_<name>.c (`#include "<name>.c"` + accessors for
+            # file-static state) replaces the library's own copy of <name>.c
+            for w in extra_srcs:
+                b = os.path.basename(w)
+                if b.startswith("wrap_"):
+                    skip.add(b[len("wrap_"):])
             for s in LIB_SOURCES:
                 if s in skip:
                     continue
                 o = os.path.join(tmp, s + ".o")
-                jobs.append([cc] + INSTR + defs + split + inc + ["-c", os.path.join(REPO, "src", s), "-o", o])
+                jobs.append([cc] + INSTR + defs + split + inc + FILE_DEFS.get(s, []) +
+                            ["-c", os.path.join(REPO, "src", s), "-o", o])
                 objs.append(o)
         with cf.ThreadPoolExecutor(NCPU) as ex:
             res = list(ex.map(lambda c: sh(c), jobs))
@@ -219,9 +229,30 @@ def lean_sources():
     return sorted(res)
 
 
-def forbidden_tokens():
+def import_closure(mod):
+    """source files of `mod` and everything of this library it imports, transitively"""
+    seen = {}
+    todo = [mod]
+    while todo:
+        m = todo.pop()
+        if m in seen or not m.startswith("LibfiberVerif"):
+            continue
+        path = os.path.join(LEAN, *m.split(".")) + ".lean"
+        seen[m] = path
+        try:
+            txt = strip_lean_comments(open(path).read())
+        except OSError:
+            continue
+        for im in re.findall(r"^\s*import\s+(\S+)", txt, re.M):
+            todo.append(im)
+    return sorted(seen.values())
+
+
+def forbidden_tokens(mod=None):
     hits = []
-    for p in lean_sources():
+    files = lean_sources() if mod is None else sorted(set(
+        import_closure(mod) + import_closure("LibfiberVerif.Driver") + [os.path.join(LEAN, "Main.lean")]))
+    for p in files:
         try:
             txt = strip_lean_comments(open(p).read())
         except OSError:
@@ -288,7 +319,7 @@ def lean_obligations(pid, leanchecker=False):
         res["obligations"].append({"name": n, "ok": ok, "axioms": ax if ax is not None else ["<not found>"]})
         if not ok:
             res["ok"] = False
-    hits = forbidden_tokens()
+    hits = forbidden_tokens(mod)
     res["forbidden"] = hits
     if hits:
         res["ok"] = False
